@@ -1232,6 +1232,19 @@ impl InterfaceInner {
             return Ok(());
         }
 
+        // The length fields of the IPv4 and IPv6 headers are 16 bits wide. A longer packet
+        // cannot be put on any link, whatever its MTU (jumbograms are not supported): drop it.
+        let fits_length_field = match &ip_repr {
+            #[cfg(feature = "proto-ipv4")]
+            IpRepr::Ipv4(repr) => repr.buffer_len() + repr.payload_len <= u16::MAX as usize,
+            #[cfg(feature = "proto-ipv6")]
+            IpRepr::Ipv6(repr) => repr.payload_len <= u16::MAX as usize,
+        };
+        if !fits_length_field {
+            net_debug!("dropping packet that is too long for the IP length field");
+            return Ok(());
+        }
+
         // Dispatch IEEE802.15.4:
 
         #[cfg(feature = "medium-ieee802154")]
